@@ -43,6 +43,9 @@ func init() {
 	mutant(&Mutant{Name: "pdel-unlock-inside", Props: []string{"C07"}, File: fCrud,
 		Old: "\td.timestamp = now\n\td.parent = true\n", New: "\ts.mu.Unlock()\n\ts.mu.Lock()\n\td.timestamp = now\n\td.parent = true\n",
 		Expect: "R7.handlers-lock-neutral", Key: "cmdPDEL", Why: "a multi-object command drops the lock between effect and log"})
+	mutant(&Mutant{Name: "golive-rlock-fence", Props: []string{"C05"}, File: fLive,
+		Old: "\t\t\t\ts.mu.Lock()\n\t\t\t\tdefer s.mu.Unlock()\n\t\t\t\tmsgs = FenceMatch", New: "\t\t\t\ts.mu.RLock()\n\t\t\t\tdefer s.mu.RUnlock()\n\t\t\t\tmsgs = FenceMatch",
+		Expect: "R5.under-lock", Key: "FenceMatch", Why: "live fences evaluated under the shared lock"})
 	mutant(&Mutant{Name: "golive-rlock", Props: []string{"C07"}, File: fLive,
 		Old: "\t\t\t\ts.mu.Lock()\n\t\t\t\tdefer s.mu.Unlock()\n\t\t\t\tmsgs = FenceMatch", New: "\t\t\t\ts.mu.RLock()\n\t\t\t\tdefer s.mu.RUnlock()\n\t\t\t\tmsgs = FenceMatch",
 		Expect: "R7.lock-write", Key: "groupConnect", Why: "reverse of the live-fence fix"})
@@ -322,6 +325,56 @@ func init() {
 	mutant(&Mutant{Name: "reset-forgets-hooks", Props: []string{"C06"}, File: fServer,
 		Old: "\ts.hookExpires.Clear()\n\ts.hooks.Clear()\n\ts.hooksOut.Clear()\n\ts.hookTree.Clear()\n\ts.hookCross.Clear()\n}", New: "\ts.hookExpires.Clear()\n\ts.hooksOut.Clear()\n\ts.hookTree.Clear()\n\ts.hookCross.Clear()\n}",
 		Expect: "R6.reset-complete", Key: "reset-clears/hooks", Why: "hooks of the previous life survive the resync"})
+
+	// ---- R5 ----------------------------------------------------------------
+	mutant(&Mutant{Name: "delhook-forgets-tree", Props: []string{"C05"}, File: fHooks,
+		Old: "\t\trect := hook.Fence.obj.Rect()\n\t\ts.hookTree.Delete(\n\t\t\t[2]float64{rect.Min.X, rect.Min.Y},\n\t\t\t[2]float64{rect.Max.X, rect.Max.Y},\n\t\t\thook)\n\t\tif hook.Fence.detect[\"cross\"] {",
+		New: "\t\trect := hook.Fence.obj.Rect()\n\t\tif hook.Fence.detect[\"cross\"] {",
+		Expect: "R5.registry-co-update", Key: "cmdDELHOOKop/delete/hookTree", Why: "a deleted hook stays in the spatial candidate index and keeps firing"})
+	mutant(&Mutant{Name: "sethook-forgets-hooksout", Props: []string{"C05"}, File: fHooks,
+		Old: "\tif hook.Fence.detect == nil || hook.Fence.detect[\"outside\"] {\n\t\ts.hooksOut.Set(hook)\n\t}\n", New: "",
+		Expect: "R5.registry-co-update", Key: "cmdSetHook/insert/hooksOut", Why: "outside detection never gets a candidate for far-away objects"})
+	mutant(&Mutant{Name: "sethook-cross-guard-differs", Props: []string{"C05"}, File: fHooks,
+		Old: "\t\t\thook)\n\t\tif hook.Fence.detect[\"cross\"] {\n\t\t\ts.hookCross.Insert(", New: "\t\t\thook)\n\t\tif hook.Fence.detect[\"cross\"] || hook.Fence.detect == nil {\n\t\t\ts.hookCross.Insert(",
+		Expect: "R5.registry-co-update", Key: "guards-agree/hookCross", Why: "entries inserted under a wider predicate than they are deleted under"})
+	mutant(&Mutant{Name: "candidates-skip-cross", Props: []string{"C05"}, File: fAOF,
+		Old: "\tif d.old != nil && d.obj != nil && s.hookCross.Len() > 0 {\n\t\tr1, r2 := d.old.Rect(), d.obj.Rect()\n\t\ts.hookCross.Search(", New: "\tif d.old != nil && d.obj != nil && s.hookCross.Len() > 0 {\n\t\tr1, r2 := d.old.Rect(), d.obj.Rect()\n\t\ts.hookTree.Search(",
+		Expect: "R5.registry-read", Key: "candidates-consult/hookCross", Why: "cross fences are never candidates"})
+	mutant(&Mutant{Name: "detect-unknown-name", Props: []string{"C05"}, File: "internal/server/fence.go",
+		Old: "\t\t\t} else if match1 && !match2 {\n\t\t\t\tdetect = \"exit\"", New: "\t\t\t} else if match1 && !match2 {\n\t\t\t\tdetect = \"leave\"",
+		Expect: "R5.detect-vocabulary", Key: "produced/leave", Why: "a detect name nobody can select"})
+	mutant(&Mutant{Name: "flushdb-forgets-cross", Props: []string{"C05"}, File: fCrud,
+		Old: "\ts.hookTree.Clear()\n\ts.hookCross.Clear()\n\n\t// >> Response", New: "\ts.hookTree.Clear()\n\n\t// >> Response",
+		Expect: "R5.registry-co-update", Key: "cmdFLUSHDB/clear/hookCross", Why: "FLUSHDB leaves cross fences in their index"})
+
+	// ---- R10 ---------------------------------------------------------------
+	mutant(&Mutant{Name: "publish-unlocked-append", Props: []string{"C10"}, File: "internal/server/pubsub.go",
+		Old: "\t\tmsg.target.cond.L.Lock()\n\t\tmsg.target.msgs = append(msg.target.msgs, msg)\n\t\tmsg.target.cond.Broadcast()\n\t\tmsg.target.cond.L.Unlock()",
+		New: "\t\tmsg.target.msgs = append(msg.target.msgs, msg)\n\t\tmsg.target.cond.Broadcast()",
+		Expect: "R10.guarded-queues", Key: "subtarget.cond.L", Why: "two publishers append to one subscriber queue concurrently: a message is lost"})
+	mutant(&Mutant{Name: "livebuffer-unlocked-append", Props: []string{"C10"}, File: fLive,
+		Old: "\t\t\t\tlb.cond.L.Lock()\n\t\t\t\tif lb.key != \"\" && lb.key == item.key {\n\t\t\t\t\tlb.details = append(lb.details, item)\n\t\t\t\t\tlb.cond.Broadcast()\n\t\t\t\t}\n\t\t\t\tlb.cond.L.Unlock()",
+		New: "\t\t\t\tif lb.key != \"\" && lb.key == item.key {\n\t\t\t\t\tlb.details = append(lb.details, item)\n\t\t\t\t\tlb.cond.Broadcast()\n\t\t\t\t}",
+		Expect: "R10.guarded-queues", Key: "liveBuffer.cond.L", Why: "the live fence queue is appended while its consumer pops"})
+	mutant(&Mutant{Name: "lstack-unlocked", Props: []string{"C10"}, File: fAOF,
+		Old: "\t\ts.lcond.L.Lock()\n\t\tif len(s.lives) > 0 {", New: "\t\tif len(s.lives) > 0 {",
+		Edits: []Edit{{fAOF, "\t\t\ts.lcond.Broadcast()\n\t\t}\n\t\ts.lcond.L.Unlock()\n", "\t\t\ts.lcond.Broadcast()\n\t\t}\n"}},
+		Expect: "R10.guarded-queues", Key: "Server.lcond.L", Why: "the live stack is pushed without its lock"})
+	mutant(&Mutant{Name: "subscription-write-outside", Props: []string{"C10"}, File: "internal/server/pubsub.go",
+		Old: "\t\tcase RESP:\n\t\t\twrite([]byte(\"+OK\\r\\n\"))\n\t\t}\n\t}\n\twritePing", New: "\t\tcase RESP:\n\t\t\twriteLiveMessage(conn, []byte(\"+OK\\r\\n\"), false, connType, websocket)\n\t\t}\n\t}\n\twritePing",
+		Expect: "R10.single-writer", Key: "socket-write", Why: "a reply bypasses the connection write lock"})
+	mutant(&Mutant{Name: "proc-reinsert-skips-failed", Props: []string{"C10"}, File: fHooks,
+		Old: "\t\t\tkeys = keys[i:]\n\t\t\tvals = vals[i:]\n\t\t\tttls = ttls[i:]", New: "\t\t\tkeys = keys[i:]\n\t\t\tvals = vals[i+1:]\n\t\t\tttls = ttls[i:]",
+		Expect: "R10.retry-path", Key: "reinsert-slices-agree", Why: "the failed message is re-queued under the key of its successor"})
+	mutant(&Mutant{Name: "proc-no-reinsert", Props: []string{"C10"}, File: fHooks,
+		Old: "\t\tif !sent {\n\t\t\t// failed to send. try to reinsert the remaining.", New: "\t\tif !sent && len(keys) > 1000 {\n\t\t\treturn false\n\t\t}\n\t\tif !sent {\n\t\t\t// failed to send. try to reinsert the remaining.",
+		Expect: "R10.retry-path", Key: "reinsert-before-give-up", Why: "a path gives up without re-queuing"})
+	mutant(&Mutant{Name: "endpoint-send-early-return", Props: []string{"C10"}, File: "internal/endpoint/endpoint.go",
+		Old: "\tfor {\n\t\tepc.mu.Lock()\n\t\tconn, exists := epc.conns[endpoint]\n\t\tif !exists || conn.Expired() {", New: "\tfor {\n\t\tepc.mu.Lock()\n\t\tif len(msg) == 0 {\n\t\t\treturn nil\n\t\t}\n\t\tconn, exists := epc.conns[endpoint]\n\t\tif !exists || conn.Expired() {",
+		Expect: "R10.endpoint-pairing", Key: "Send", Why: "an exit of Send keeps the manager mutex: every later webhook blocks"})
+	mutant(&Mutant{Name: "queuehooks-shared-lock", Props: []string{"C10", "C05"}, File: fLive,
+		Old: "\t\t\t\ts.mu.Lock()\n\t\t\t\tdefer s.mu.Unlock()\n\t\t\t\tmsgs = FenceMatch", New: "\t\t\t\ts.mu.RLock()\n\t\t\t\tdefer s.mu.RUnlock()\n\t\t\t\tmsgs = FenceMatch",
+		Expect: "R5.under-lock", Key: "FenceMatch", Why: "fence evaluation under the shared lock"})
 
 	// ---- neutral variants --------------------------------------------------
 	mutant(&Mutant{Name: "neutral-rename-write-flag", Props: []string{"C03", "C07", "C15"}, Neutral: true, File: fScripts,
